@@ -86,11 +86,16 @@ func NewAdapter(
 
 	for _, output := range adapter.Outputs {
 		if err := adapter.depDB.AddControllerOutput(adapter.Name, output); err != nil {
+			// a rejected registration should not leave anything behind
+			adapter.depDB.DeleteController(adapter.Name)
+
 			return nil, fmt.Errorf("error registering in dependency database: %w", err)
 		}
 	}
 
 	if err := adapter.UpdateInputs(adapter.ctrl.Inputs()); err != nil {
+		adapter.depDB.DeleteController(adapter.Name)
+
 		return nil, fmt.Errorf("error registering initial inputs: %w", err)
 	}
 
@@ -126,6 +131,13 @@ func (adapter *Adapter) UpdateInputs(deps []controller.Input) error {
 		case controller.InputQPrimary, controller.InputQMapped, controller.InputQMappedDestroyReady:
 			// allowed only for QControllers
 			return fmt.Errorf("invalid input kind %d for controller %q", dep.Kind, adapter.Name)
+		}
+	}
+
+	// reject conflicting inputs before anything is changed, so that a failed update has no effect
+	for i := 1; i < len(deps); i++ {
+		if deps[i-1].EqualKeys(deps[i]) {
+			return fmt.Errorf("duplicate controller input: %q -> %v", adapter.Name, deps[i])
 		}
 	}
 
